@@ -126,6 +126,7 @@ type Machine struct {
 	fs     *FS
 	sched  *Sched
 	frozen map[interface{}]bool
+	syncMaps map[*Val]*MapV
 	locked int // depth of shared-mutex critical sections (C19)
 
 	funcs    map[string]bool
@@ -994,41 +995,75 @@ func (m *Machine) next(it *mapIter, i *ssa.Next) Val {
 			return Tuple{cBool(false), goInt(0), cInt(0, 32, true)}
 		}
 		c := it.str.at(it.pos)
-		if c.t != nil {
-			// symbolic byte: ASCII or not decides the rune width
-			if m.branch(m.ctx.Cmp(opUlt, c.t, m.ctx.BV(8, 0x80))) {
-				it.pos++
-				return Tuple{cBool(true), goInt(it.pos - 1), m.mk(m.ctx.Resize(c.t, 32, false), true)}
-			}
-			unsupported("range over string with symbolic non-ASCII byte")
+		if c.t == nil && c.c < 0x80 {
+			it.pos++
+			return Tuple{cBool(true), goInt(it.pos - 1), cInt(c.c, 32, true)}
 		}
-		if c.c >= 0x80 {
-			// decode natively (content must be concrete)
-			rest := it.str.goStr()[it.pos:]
-			for k := 0; k < len(rest) && k < 4; k++ {
-				if it.str.at(it.pos+k).t != nil {
-					unsupported("range over string with symbolic continuation byte")
-				}
+		// UTF-8 decoding with possibly symbolic bytes: the byte classes that
+		// decide the width are decided by branching (exactly Go's rules:
+		// shortest form, no surrogates, <= U+10FFFF; anything else is
+		// RuneError of width 1)
+		in := func(b Int, lo, hi uint64) bool {
+			if b.t == nil {
+				return b.c >= lo && b.c <= hi
 			}
-			var r rune
-			var sz int
-			for j, rr := range rest {
-				if j == 0 {
-					r = rr
-				} else {
-					sz = j
-					break
-				}
-			}
-			if sz == 0 {
-				sz = len(rest)
-			}
-			p := it.pos
-			it.pos += sz
-			return Tuple{cBool(true), goInt(p), cInt(uint64(r), 32, true)}
+			return m.branch(m.ctx.And(m.ctx.Cmp(opUle, m.ctx.BV(8, lo), b.t), m.ctx.Cmp(opUle, b.t, m.ctx.BV(8, hi))))
 		}
-		it.pos++
-		return Tuple{cBool(true), goInt(it.pos - 1), cInt(c.c, 32, true)}
+		bits := func(b Int, mask uint64, sh uint64) *Term {
+			var t *Term
+			if b.t == nil {
+				t = m.ctx.BV(32, (b.c&mask)<<sh)
+			} else {
+				t = m.ctx.Bin(opShl, m.ctx.Bin(opBAnd, m.ctx.Resize(b.t, 32, false), m.ctx.BV(32, mask)), m.ctx.BV(32, sh))
+			}
+			return t
+		}
+		p := it.pos
+		avail := it.str.n - p
+		bad := func() Val {
+			it.pos = p + 1
+			return Tuple{cBool(true), goInt(p), cInt(0xFFFD, 32, true)}
+		}
+		ok := func(w int, t *Term) Val {
+			it.pos = p + w
+			return Tuple{cBool(true), goInt(p), m.mk(t, true)}
+		}
+		if in(c, 0, 0x7f) {
+			it.pos++
+			return Tuple{cBool(true), goInt(p), m.mk(m.ctx.Resize(c.t, 32, false), true)}
+		}
+		cont := func(k int, lo, hi uint64) bool { return k < avail && in(it.str.at(p+k), lo, hi) }
+		switch {
+		case in(c, 0xC2, 0xDF):
+			if !cont(1, 0x80, 0xBF) {
+				return bad()
+			}
+			return ok(2, m.ctx.Bin(opBOr, bits(c, 0x1F, 6), bits(it.str.at(p+1), 0x3F, 0)))
+		case in(c, 0xE0, 0xEF):
+			lo, hi := uint64(0x80), uint64(0xBF)
+			if in(c, 0xE0, 0xE0) {
+				lo = 0xA0
+			} else if in(c, 0xED, 0xED) {
+				hi = 0x9F
+			}
+			if !cont(1, lo, hi) || !cont(2, 0x80, 0xBF) {
+				return bad()
+			}
+			return ok(3, m.ctx.Bin(opBOr, m.ctx.Bin(opBOr, bits(c, 0x0F, 12), bits(it.str.at(p+1), 0x3F, 6)), bits(it.str.at(p+2), 0x3F, 0)))
+		case in(c, 0xF0, 0xF4):
+			lo, hi := uint64(0x80), uint64(0xBF)
+			if in(c, 0xF0, 0xF0) {
+				lo = 0x90
+			} else if in(c, 0xF4, 0xF4) {
+				hi = 0x8F
+			}
+			if !cont(1, lo, hi) || !cont(2, 0x80, 0xBF) || !cont(3, 0x80, 0xBF) {
+				return bad()
+			}
+			t := m.ctx.Bin(opBOr, m.ctx.Bin(opBOr, bits(c, 0x07, 18), bits(it.str.at(p+1), 0x3F, 12)), m.ctx.Bin(opBOr, bits(it.str.at(p+2), 0x3F, 6), bits(it.str.at(p+3), 0x3F, 0)))
+			return ok(4, t)
+		}
+		return bad()
 	}
 	if it.pos >= len(it.mp.keys) {
 		return Tuple{cBool(false), nil, nil}
